@@ -257,10 +257,19 @@ MT_RULE = ("multitree histories: column 0 multitree (plain / counted / append-on
            "EXISTING children of the first (a few hundred reference counters change in one log record), drained, optionally reopened, optionally the sharer dereferenced; two thirds of these and a sixth of the other histories run with a small reference count table (hook H7: 2-8 chunks of 32 counters instead of 65536) and with steps of the reindex worker at random moments, in particular between the processing and the enactment of the sharer's dereference: the table grows (bits + 1), the outgrown table is moved batch by batch and dropped")
 prop(
     id="C10", module="Properties.C10", vfile="Properties/C10.v", level="proof", subcmd="c10", beyond_known=True,
-    theorems=["C10_node_pack_roundtrip", "C10_unrepresentable_rejected", "C10_insert_reads_back_after_commit", "C10_insert_reads_back_after_processing", "C10_shared_node_survives_dereference", "C10_unshared_leaf_is_reclaimed", "C10_invalid_operation_rejects_without_trace"],
+    subcmds=[("c10", {"quick": 1600, "thorough": 60000, "search": 6400}), ("c10r", {"quick": 320, "thorough": 16000, "search": 1600})],
+    theorems=["C10_node_pack_roundtrip", "C10_unrepresentable_rejected", "C10_insert_reads_back_after_commit", "C10_insert_reads_back_after_processing", "C10_shared_node_survives_dereference", "C10_unshared_leaf_is_reclaimed", "C10_invalid_operation_rejects_without_trace",
+              "Counters.C10_counter_lookup_is_reference_count", "Counters.C10_reference_account", "Counters.C10_tables_hold_the_models_count_map", "Counters.C10_count_map_steps_are_the_models",
+              "Forest.C10_count_is_number_of_references", "Forest.C10_reachable_nodes_are_stored", "Forest.C10_all_dereferenced_is_empty", "Forest.C10_forest_invariant_kept"],
     counts={"quick": 1600, "thorough": 60000, "search": 6400},
-    rule=MT_RULE,
-    assumptions=["node identities are abstract in the model (the code's addresses): observations are compared after canonical renumbering, existing children are named by paths",
+    rule="(c10r, counter level) hook H7 makes a new reference count table small (2-8 chunks of 32 counters; 'deep' third: 2 chunks, 200-250 leaves, no reindex step while "
+         "the sharers pile up, so that three tables coexist); a base tree with 40-250 leaves, then 60-320 drained transactions: insert a sharer (a root with 1-4 EXISTING leaves: each gains a "
+         "reference), dereference a sharer (each of its leaves loses one), one step of the reindex worker, drop + reopen; after EVERY transaction every refcount_00_<bits> file is read raw "
+         "(slot, address, count of every non-empty slot of every chunk) and compared with the tables the model's rstep predicts; oracle: the counter a lookup finds equals 1 + the live sharers "
+         "of the leaf, a leaf with one reference has no counter anywhere, sharers and leaves read back; at the end every sharer is dereferenced (no counter may remain), then the base tree "
+         "(no value entry may remain). (c10) " + MT_RULE,
+    assumptions=["counter level: the hash of an address (SipHash-2-4 with a zero key, computed by the harness with the siphasher crate) is an input of the model; the table logic is exercised with small tables (hook H7) - with the built-in 65536 chunks growth needs about a million shared nodes; the reindex batch limit (8192 counters) is in the model and in the proof but is never reached by tables of this size; a reindex batch is collected and applied in one step (it is, by the one log worker); the hash index of the column does not grow in these histories (index and counter tables share the reindex queue)",
+                 "forest theorems (counts = references, reachable nodes stored, nothing left after the last dereference): for histories of single-operation transactions, each processed before the next is made, no reader lock held, column not append-only, an inserted tree naming only stored nodes as existing children under a free root key; several operations per transaction, pipelining and locks are tied by c10 only", "node identities are abstract in the model (the code's addresses): observations are compared after canonical renumbering, existing children are named by paths",
                  "the slot allocator (claim_entries) is not modelled; its effects are visible only through the entry count (that is how F7, now repaired, was seen)"],
     explanation="multitree model with abstract node identities, commit-time preparation, counted sharing, recursive dereference; node packing proved; tie by full traversals after every step",
 )
